@@ -564,6 +564,22 @@ func (w *World) MutateRow(id string, created int64, fn func(r *Row)) bool {
 	return ok
 }
 
+// PutRow files a (copy of a) row under its (ID, Created), replacing whatever is there.
+func (w *World) PutRow(r Row) {
+	w.mu.Lock()
+	defer w.mu.Unlock()
+	r.Key = append([]byte(nil), r.Key...)
+	if r.Parent != nil {
+		p := *r.Parent
+		r.Parent = &p
+	}
+	k := tkey{r.ID, r.Created}
+	if _, ok := w.table[k]; !ok {
+		w.order = append(w.order, k)
+	}
+	w.table[k] = &r
+}
+
 func (w *World) DeleteRow(id string, created int64) {
 	w.mu.Lock()
 	defer w.mu.Unlock()
